@@ -61,6 +61,7 @@ type Writers struct {
 	Oracles []func(w *Writers, hist []string) []explore.Violation
 	// per-step observers (called inside Do, before and after the action)
 	OnRestart []func(w *Writers, i int)
+	OnClose   []func(w *Writers)
 	Before    []func(w *Writers, action string)
 	After     []func(w *Writers, action string)
 	// differential memory shared by all worlds of one search
@@ -195,6 +196,9 @@ func (w *Writers) Restart(i int, fromSnapshot bool) error {
 }
 
 func (w *Writers) Close() {
+	for _, f := range w.OnClose {
+		f(w)
+	}
 	for _, i := range w.Inst {
 		_ = i.Close()
 	}
